@@ -172,7 +172,9 @@ func isRuneSlice(t types.Type) bool {
 }
 
 // unitRule: two-colour taint over the markup package; filter selects the functions reported under rule.
-func unitRule(c *Ctx, rule string, filter func(f *ssa.Function) bool) { unitRuleMin(c, rule, 10, filter) }
+func unitRule(c *Ctx, rule string, filter func(f *ssa.Function) bool) {
+	unitRuleMin(c, rule, 10, filter)
+}
 
 func unitRuleMin(c *Ctx, rule string, minSites int, filter func(f *ssa.Function) bool) {
 	w := c.W
